@@ -114,6 +114,47 @@ pub fn check(case: &Case, l: &mut Local) -> Verdict {
     Verdict::Pass { nontrivial: sig >= 2 }
 }
 
+// ---- bounded-exhaustive: every sequence of up to 3 tokens of a 64-token core set, under -, u and v
+const CORE: &[&str] = &[
+    "a", "(", ")", "(?:", "(?=", "(?!", "(?<=", "(?<!", "(?<n>", "(?i:", "(?-i:", "(?", "[", "]", "[^", "{", "}", "{1}", "{1,}", "{2,1}", "{,1}", "*", "+", "?", "|", "^", "$", ".", "\\b", "\\B",
+    "\\1", "\\2", "\\k<n>", "\\k", "\\d", "\\p{L}", "\\p{X}", "\\P", "\\u0061", "\\u", "\\uD83D", "\\x4", "\\c", "\\cA", "\\0", "\\01", "\\8", "\\-", "-", "&&", "--", "\\q{a}", "\\q{ab|c}", ",", ":", "=",
+    "!", "<", ">", "\\", "/", "\\/", "1", "\u{1F600}",
+];
+
+pub fn core_cases(tier: Tier) -> Vec<Case> {
+    let mut out = vec![];
+    let n = CORE.len();
+    let mut push = |s: String| {
+        for f in ["", "u", "v"] {
+            out.push(mk(s.chars().map(|c| c as u32).collect(), Fl::parse(f)));
+        }
+    };
+    push(String::new());
+    for a in 0..n {
+        push(CORE[a].to_string());
+        for b in 0..n {
+            push(format!("{}{}", CORE[a], CORE[b]));
+            for c in 0..n {
+                push(format!("{}{}{}", CORE[a], CORE[b], CORE[c]));
+                // thorough: quadruples over the first 40 tokens
+                if tier == Tier::Thorough && a < 40 && b < 40 && c < 40 {
+                    for d in 0..40 {
+                        push(format!("{}{}{}{}", CORE[a], CORE[b], CORE[c], CORE[d]));
+                    }
+                }
+            }
+        }
+    }
+    out
+}
+
+pub fn gen_core(src: &mut Src, _t: Tier) -> Case {
+    let k = 1 + src.below(4);
+    let s: String = (0..k).map(|_| *src.pick(CORE)).collect();
+    mk(s.chars().map(|c| c as u32).collect(), Fl::parse(*src.pick(&["", "u", "v"])))
+}
+
+pub static V_CORE: Variant = Variant { name: "exhaustive_token_triples", choice_len: 5, gen: gen_core, check };
 pub static V_SOUP: Variant = Variant { name: "token_soup", choice_len: 60, gen: gen_soup_case, check };
 pub static V_CROSS: Variant = Variant { name: "cross_mode", choice_len: 400, gen: gen_cross_mode, check };
 pub static V_MUT: Variant = Variant { name: "mutated_valid", choice_len: 400, gen: gen_mutated, check };
@@ -121,20 +162,21 @@ pub static V_DUP: Variant = Variant { name: "duplicate_names", choice_len: 200, 
 pub static V_CUR: Variant = Variant { name: "curated_early_errors", choice_len: 1, gen: gen_curated, check };
 
 pub fn variants() -> Vec<&'static Variant> {
-    vec![&V_SOUP, &V_CROSS, &V_MUT, &V_DUP, &V_CUR]
+    vec![&V_SOUP, &V_CROSS, &V_MUT, &V_DUP, &V_CUR, &V_CORE]
 }
 
 pub fn run(ctx: &Ctx) -> i32 {
     esref::selftest::ensure();
     let cur: Vec<Case> = CURATED.iter().map(|(p, f)| mk(p.chars().map(|c| c as u32).collect(), Fl::parse(f))).collect();
     ctx.run_list(&V_CUR, &cur);
+    ctx.run_list(&V_CORE, &core_cases(ctx.tier));
     ctx.run_variant(&V_SOUP, ctx.scale(1_500_000, 20_000_000));
     ctx.run_variant(&V_CROSS, ctx.scale(300_000, 4_000_000));
     ctx.run_variant(&V_MUT, ctx.scale(500_000, 8_000_000));
     ctx.run_variant(&V_DUP, ctx.scale(300_000, 4_000_000));
     ctx.finish(
         "exploration",
-        "token soup (1-10 fragments from ~230 syntax fragments: every bracket, quantifier shape, escape family, group opener incl. modifiers and names, v-mode operators and reserved punctuators, property names valid and invalid) x 24 flag sets; valid patterns printed for one mode and compiled under another; single-edit mutations of valid patterns; random placements of groups named a/b (legal and illegal duplicates) with \\k references; a curated list of ~150 early-error cases from the specification. Oracle: the reference model's parser (ES2025 grammar + Annex B + all static early errors), whose accept/reject agrees with V8 on 200k such strings (modifiers aside) and is re-checked against a frozen V8 corpus on every run. Both directions are judged. Non-trivial = at least two syntax-significant characters; classes report the accept/reject balance.",
+        "(bounded-exhaustive) EVERY sequence of up to 3 tokens from a 64-token core (all group openers, brackets, quantifier shapes incl. malformed ones, anchors, the escape families incl. truncated ones, v-mode operators, \\q, punctuation) under -, u and v: 800k patterns (thorough: plus every quadruple over the first 40 tokens, 7.7M); token soup (1-10 fragments from ~230 syntax fragments: every bracket, quantifier shape, escape family, group opener incl. modifiers and names, v-mode operators and reserved punctuators, property names valid and invalid) x 24 flag sets; valid patterns printed for one mode and compiled under another; single-edit mutations of valid patterns; random placements of groups named a/b (legal and illegal duplicates) with \\k references; a curated list of ~150 early-error cases from the specification. Oracle: the reference model's parser (ES2025 grammar + Annex B + all static early errors), whose accept/reject agrees with V8 on 200k such strings (modifiers aside) and is re-checked against a frozen V8 corpus on every run. Both directions are judged. Non-trivial = at least two syntax-significant characters; classes report the accept/reject balance.",
         &["esref parser is the trusted base (validated against V8 for legacy/u/v; modifiers and duplicate names by spec reading)", "property names: the set V8/ICU 78 (Unicode 17) accepts, exported to oracle/v8_names.tsv"],
     )
 }
